@@ -1,0 +1,49 @@
+//go:build verif
+
+package queue
+
+// Contracts for the provide / reprovide queues (property C19). Comment-only.
+
+/*@
+# ---- integer fact used by the batching protocol (proved as a lemma) --------
+lemma mod_succ(i int, b int)
+  requires b > 0 && i >= 0
+  ensures mod(i+1, b) == ite(mod(i, b) + 1 == b, 0, mod(i, b) + 1)
+
+func (q *prefixQueue) Push(prefixes ...bitstr.Key)
+  props C19
+  ghostvar $n int = 0
+  modifies *
+  ensures [internal-every-prefix-processed] $n == len(prefixes)
+  loop over prefixes invariant $n == $key
+  ghost at call(removeSuperstrings): $n = $n + 1
+
+func (q *ProvideQueue) Enqueue(prefix bitstr.Key, keys ...mh.Multihash)
+  props C19
+  modifies *
+  ghost at before call(enqueueNoLock): assert(held(q.mu) && $arg0 == prefix && $arg1 == keys && len(keys) > 0)
+
+func (q *ProvideQueue) enqueueNoLock(prefix bitstr.Key, keys []mh.Multihash)
+  props C19
+  modifies *
+  loop over keys invariant len(entries) == len(keys)
+  loop over keys invariant all(j, 0, $key, entries[j].Data == keys[j])
+  ghost at before call(Push): assert(len($arg0) == 1 && $arg0[0] == prefix)
+  ghost at before call(AddMany): assert(len($arg0) == len(keys) && all(j, 0, len(keys), $arg0[j].Data == keys[j]))
+
+# Persist: every operation put into a batch is committed before the batch is
+# replaced or the function reports success ($pending = operations in the
+# current batch that are not yet committed).
+func (q *ProvideQueue) Persist(ctx context.Context, d ds.Batching, batchSize int) error
+  props C19
+  requires batchSize > 0
+  ghostvar $pending int = 0
+  modifies *
+  ensures [internal-all-committed] imp(result == nil, $pending == 0)
+  loop 0 invariant i >= 0 && $pending == mod(i, batchSize)
+  loop 1 invariant i >= 0 && 0 <= $pending && $pending <= mod(i, batchSize)
+  ghost at call(Delete): $pending = $pending + 1
+  ghost at call(Put): $pending = $pending + 1
+  ghost at call(Commit): $pending = 0
+  ghost at before call(Batch): assert($pending == 0)
+@*/
